@@ -28,7 +28,10 @@ Ress == {1, 7, 10, 13, 20, 25, 50, 70, 200}
 Cases(kind) == UNION { {[op |-> "segmented", kind |-> kind, off |-> o, m |-> m, r |-> r] : o \in Offs, m \in {1, 2}, r \in Ress},
                        {[op |-> op, kind |-> kind, off |-> o, m |-> 1, r |-> r] : op \in {"to_crs_family"}, o \in Offs, r \in {0, 7, 25}},
                        {[op |-> op, kind |-> kind, off |-> o, m |-> 1, r |-> 0] : op \in {"to_crs_same_spelling", "to_crs_no_crs"}, o \in {"origin", "far"}},
-                       {[op |-> "to_crs_real", kind |-> kind, off |-> o, m |-> 1, r |-> r, pair |-> pr] : o \in {"origin", "neg"}, r \in {0, 20},
+                       \* prior: what the process did with this CRS pair before (the transformer cache is keyed by pair and axis-order flag;
+                       \* to_crs must map vertices as the projection library does whatever was requested earlier)
+                       {[op |-> "to_crs_real", kind |-> kind, off |-> o, m |-> 1, r |-> r, pair |-> pr, prior |-> pz] : o \in {"origin", "neg"}, r \in {0, 20},
+                           pz \in {"none", "authority_axis_order_transformer_first"},
                            pr \in {"4326>3857", "3857>4326", "32633>4326", "4326>3035", "3035>32633", "6933>4326"}} }
 VARIABLE c
 Init == c \in {[k |-> kd] : kd \in Kinds}
